@@ -65,6 +65,8 @@ def reward_st(family):
         return st.integers(-4, 12).map(lambda k: k / 2.0)
     if family == "Sint":
         return st.integers(-2, 6)
+    if family == "Bool":   # Python bools (numpy bool arrays after conversion)
+        return st.booleans()
     if family == "B":
         return st.integers(0, 1)
     if family == "Bf":
@@ -230,6 +232,8 @@ def grid_value_st(grid):
         return st.integers(-3, 3)
     if grid == "half":
         return st.integers(-6, 6).map(lambda k: k / 2.0)
+    if grid == "mixed":     # halves, written as Python ints where integral: rows of ints next to rows with decimals
+        return st.integers(-6, 6).map(lambda k: k // 2 if k % 2 == 0 else k / 2.0)
     if grid == "small":
         return st.integers(-1, 1)
     if grid == "nonneg":    # non-negative integers, some large enough that a few squared values exceed an int8
